@@ -496,11 +496,9 @@ def run_history(spec, refs):
             if kind in PERTURBING:
                 perturbed = True
             if kind == 'gen_throw' and rec.get('other_exc'):
-                # throw() into the pipeline must surface the caller's error
-                viols.append({'cls': 'history:throw', 'op_index': i,
-                              'msg': 'exception thrown into an open '
-                                     'parsestream generator came back as %s'
-                                     % canon.short(rec['other_exc'])})
+                # how the pipeline reports an exception thrown into it is
+                # not part of C20: counted, never flagged
+                ses.stat('gen_throw_came_back_as_other_exception')
     st = dict(ses.stats)
     st['ops'] = len(spec['ops'])
     st['checked_ops'] = nchecked
